@@ -106,6 +106,12 @@ type Imported struct {
 
 // Machine is one running case.
 type Machine struct {
+	// ExtraFates names the operations without a fate parameter of their own
+	// (extend, markUsed, rename, importKey, importScript, newScope) that may
+	// run inside rolled-back transactions too (Run draws the fate).
+	ExtraFates map[string]bool
+	nextFate   Fate
+
 	T      Fataler
 	Prop   string
 	Case   *evid.Case
